@@ -226,8 +226,9 @@ RUNNER_NOTE = ("The worker model (Runner.v) is an event-labelled transition syst
                "acceptance: every recorded run of the real Worker must be accepted event by event and end in the observed counters. "
                "Events are labelled by reading the runner's limiter / stop-event identities and task frame locals. In-memory broker "
                "only; thread/process-pool actors and actors ignoring cancellation are outside. EvPause is pause() + the start of the wait in one "
-               "step (what the in-memory and Redis consumers do); runs over a consumer whose pause() / unpause() are round trips (30 % "
-               "of the C09 scenarios, 0.5-50 ms) are judged by the oracle only. ")
+               "step (what the in-memory and Redis consumers do); a consumer whose pause() / unpause() are round trips (RabbitMQ's basic.qos; "
+               "30 % of the C09 scenarios, 0.5-50 ms) goes through EvPauseStart and then EvPause or EvAcquireFast + EvUnpauseHold "
+               "(C09_pause_start_keeps_going, C09_unpause_hold_enabled, C09_paused_consumer_never_delivers). ")
 
 PROPS["C09"] = {
     "text": "Theorems over all accepted event sequences of the worker model: value + running tasks + loops holding a slot = "
